@@ -1,5 +1,6 @@
 import FimVerif.Generated.Cypher
 import FimVerif.Proofs.Lemmas.C19Render
+import FimVerif.Proofs.Lemmas.C19Partial
 /-!
 # C19 — persistent-backend statements are well-formed and data-independent
 
@@ -14,7 +15,9 @@ import FimVerif.Proofs.Lemmas.C19Render
   stored value and render differently).  `all_sites_classified` + `value_free_except_listed` make the split
   exhaustive over whatever the translator emits: a new or changed call site that interpolates a value breaks
   the build.
-* `params_supplied`, `wellformed_canonical`, `wellformed_all_values_except_listed`.
+* `data_independent_up_to_leaks_partial` — the strongest guarded form that holds for EVERY template today: the text depends on
+  no stored value other than the ones `leaks` names; `leaked_values_exact` pins those per known-bad call site.
+* `params_supplied`, `wellformed_canonical`, `wellformed_all_values_except_listed`, `injection_rewrites_statement`.
 
 FULL STATEMENT (violated by the code as it is, see the `_counterexample`s and known_findings/C19.json):
   ∀ op ∈ ops, ∀ e1 e2, e1.erase = e2.erase → render e1 op.tpl = render e2 op.tpl
@@ -40,40 +43,40 @@ theorem wellformed_extends_to_all_values (t : List Piece) (ht : valueFree t = tr
   rw [no_value_piece_data_independent t ht e e0 hs]; exact h0
 
 /-- non-vacuity: two environments that differ in every stored value and agree after `erase` -/
-def envA : Env := ⟨[("label", "Link".toList)], [("node_id", "n1".toList)],
-  [("props", [⟨[("k", "Name".toList)], [("v", "alpha".toList)]⟩])]⟩
-def envB : Env := ⟨[("label", "Link".toList)], [("node_id", "x' }) DETACH DELETE s //".toList)],
-  [("props", [⟨[("k", "Name".toList)], [("v", "it's {{}} $graphId".toList)]⟩])]⟩
-example : envA.erase = envB.erase ∧ envA ≠ envB := by decide
+def envA : Env := ⟨[(t!"label", t!"Link")], [(t!"node_id", t!"n1")],
+  [(t!"props", [⟨[(t!"k", t!"Name")], [(t!"v", t!"alpha")]⟩])]⟩
+def envB : Env := ⟨[(t!"label", t!"Link")], [(t!"node_id", t!"x' }) DETACH DELETE s //")],
+  [(t!"props", [⟨[(t!"k", t!"Name")], [(t!"v", t!"it's {{}} $graphId")]⟩])]⟩
+example : envA.erase = envB.erase ∧ envA ≠ envB := by decide +kernel
 
 /-! ### the generated call sites -/
 
 /-- call sites that interpolate a stored value into the statement text today (known findings) -/
-def valueDependentKeys : List String := [
-  "Neo4jPropertyGraph.update_node_properties#0", "Neo4jPropertyGraph.update_link_properties#0", 
-  "Neo4jPropertyGraph.add_node#0", "Neo4jPropertyGraph.add_link#0", "Neo4jPropertyGraph.serialize_graph#0", 
-  "Neo4jPropertyGraph.serialize_graph#1", "Neo4jCBMGraph.get_matching_nodes_with_components#0"]
+def valueDependentKeys : List Text := [
+  t!"Neo4jPropertyGraph.update_node_properties#0", t!"Neo4jPropertyGraph.update_link_properties#0", 
+  t!"Neo4jPropertyGraph.add_node#0", t!"Neo4jPropertyGraph.add_link#0", t!"Neo4jPropertyGraph.serialize_graph#0", 
+  t!"Neo4jPropertyGraph.serialize_graph#1", t!"Neo4jCBMGraph.get_matching_nodes_with_components#0"]
 
 /-- every other call site -/
-def valueFreeKeys : List String := [
-  "Neo4jPropertyGraph._validate_graph#0", "Neo4jPropertyGraph.delete_graph#0", 
-  "Neo4jPropertyGraph.get_all_nodes_by_class#0", "Neo4jPropertyGraph.get_all_nodes_by_class_and_type#0", 
-  "Neo4jPropertyGraph.list_all_node_ids#0", "Neo4jPropertyGraph.get_node_properties#0", 
-  "Neo4jPropertyGraph.get_link_properties#0", "Neo4jPropertyGraph.update_node_property#0", 
-  "Neo4jPropertyGraph.unset_node_property#0", "Neo4jPropertyGraph.update_nodes_property#0", 
-  "Neo4jPropertyGraph.update_link_property#0", "Neo4jPropertyGraph.unset_link_property#0", 
-  "Neo4jPropertyGraph.graph_exists#0", "Neo4jPropertyGraph.get_nodes_on_shortest_path#0", 
-  "Neo4jPropertyGraph.get_nodes_on_path_with_hops#0", "Neo4jPropertyGraph.get_first_neighbor#0", 
-  "Neo4jPropertyGraph.get_first_and_second_neighbor#0", "Neo4jPropertyGraph.delete_node#0", 
-  "Neo4jPropertyGraph.node_exists#0", "Neo4jPropertyGraph.find_matching_nodes#0", 
-  "Neo4jPropertyGraph.merge_nodes#0", "Neo4jPropertyGraph.get_stitch_nodes#0", 
-  "Neo4jPropertyGraph.check_node_unique#0", "Neo4jPropertyGraph.get_graph_diff#0", 
-  "Neo4jPropertyGraph.get_graph_property_diff#0", "Neo4jGraphImporter._add_indexes#0", 
-  "Neo4jGraphImporter._import_graph#0", "Neo4jGraphImporter._import_graph#1", 
-  "Neo4jGraphImporter.delete_all_graphs#0", "Neo4jGraphImporter.delete_graph#0", 
-  "Neo4jCBMGraph.get_intersite_links#0", "Neo4jCBMGraph.get_sites#0", "Neo4jCBMGraph.get_disconnected_sites#0", 
-  "Neo4jCBMGraph.get_connected_sites#0", "Neo4jCBMGraph.get_facility_ports#0", "Neo4jASM.check_node_name#0", 
-  "Neo4jASM.find_node_by_name#0"]
+def valueFreeKeys : List Text := [
+  t!"Neo4jPropertyGraph._validate_graph#0", t!"Neo4jPropertyGraph.delete_graph#0", 
+  t!"Neo4jPropertyGraph.get_all_nodes_by_class#0", t!"Neo4jPropertyGraph.get_all_nodes_by_class_and_type#0", 
+  t!"Neo4jPropertyGraph.list_all_node_ids#0", t!"Neo4jPropertyGraph.get_node_properties#0", 
+  t!"Neo4jPropertyGraph.get_link_properties#0", t!"Neo4jPropertyGraph.update_node_property#0", 
+  t!"Neo4jPropertyGraph.unset_node_property#0", t!"Neo4jPropertyGraph.update_nodes_property#0", 
+  t!"Neo4jPropertyGraph.update_link_property#0", t!"Neo4jPropertyGraph.unset_link_property#0", 
+  t!"Neo4jPropertyGraph.graph_exists#0", t!"Neo4jPropertyGraph.get_nodes_on_shortest_path#0", 
+  t!"Neo4jPropertyGraph.get_nodes_on_path_with_hops#0", t!"Neo4jPropertyGraph.get_first_neighbor#0", 
+  t!"Neo4jPropertyGraph.get_first_and_second_neighbor#0", t!"Neo4jPropertyGraph.delete_node#0", 
+  t!"Neo4jPropertyGraph.node_exists#0", t!"Neo4jPropertyGraph.find_matching_nodes#0", 
+  t!"Neo4jPropertyGraph.merge_nodes#0", t!"Neo4jPropertyGraph.get_stitch_nodes#0", 
+  t!"Neo4jPropertyGraph.check_node_unique#0", t!"Neo4jPropertyGraph.get_graph_diff#0", 
+  t!"Neo4jPropertyGraph.get_graph_property_diff#0", t!"Neo4jGraphImporter._add_indexes#0", 
+  t!"Neo4jGraphImporter._import_graph#0", t!"Neo4jGraphImporter._import_graph#1", 
+  t!"Neo4jGraphImporter.delete_all_graphs#0", t!"Neo4jGraphImporter.delete_graph#0", 
+  t!"Neo4jCBMGraph.get_intersite_links#0", t!"Neo4jCBMGraph.get_sites#0", t!"Neo4jCBMGraph.get_disconnected_sites#0", 
+  t!"Neo4jCBMGraph.get_connected_sites#0", t!"Neo4jCBMGraph.get_facility_ports#0", t!"Neo4jASM.check_node_name#0", 
+  t!"Neo4jASM.find_node_by_name#0"]
 
 set_option maxRecDepth 100000 in
 /-- the two lists cover exactly what the translator found: no call site is unaccounted for, none has vanished -/
@@ -99,163 +102,200 @@ theorem params_supplied : ∀ op ∈ ops, ∀ x ∈ tplParams op.tpl, x ∈ op.s
 /-! ### per call site -/
 
 /-- every stored value replaced by a string that closes the literal it is written into -/
-def evil : Text := "x'} DETACH DELETE s //\"} DETACH DELETE n //".toList
+def evil : Text := t!"x'} DETACH DELETE s //\"} DETACH DELETE n //"
 def evilRow : Row := ⟨canonRow.idents, canonRow.values.map (fun p => (p.1, evil))⟩
 def evilEnv : Env := ⟨canonEnv.idents, canonEnv.values.map (fun p => (p.1, evil)),
   canonEnv.maps.map (fun p => (p.1, p.2.map (fun _ => evilRow)))⟩
 
 set_option maxRecDepth 100000 in
-theorem Neo4jPropertyGraph__validate_graph_s0_value_free : ∀ op ∈ ops, op.key = "Neo4jPropertyGraph._validate_graph#0" → valueFree op.tpl = true := by decide +kernel
+theorem Neo4jPropertyGraph__validate_graph_s0_value_free : ∀ op ∈ ops, op.key = t!"Neo4jPropertyGraph._validate_graph#0" → valueFree op.tpl = true := by decide +kernel
 
 set_option maxRecDepth 100000 in
-theorem Neo4jPropertyGraph_delete_graph_s0_value_free : ∀ op ∈ ops, op.key = "Neo4jPropertyGraph.delete_graph#0" → valueFree op.tpl = true := by decide +kernel
+theorem Neo4jPropertyGraph_delete_graph_s0_value_free : ∀ op ∈ ops, op.key = t!"Neo4jPropertyGraph.delete_graph#0" → valueFree op.tpl = true := by decide +kernel
 
 set_option maxRecDepth 100000 in
-theorem Neo4jPropertyGraph_get_all_nodes_by_class_s0_value_free : ∀ op ∈ ops, op.key = "Neo4jPropertyGraph.get_all_nodes_by_class#0" → valueFree op.tpl = true := by decide +kernel
+theorem Neo4jPropertyGraph_get_all_nodes_by_class_s0_value_free : ∀ op ∈ ops, op.key = t!"Neo4jPropertyGraph.get_all_nodes_by_class#0" → valueFree op.tpl = true := by decide +kernel
 
 set_option maxRecDepth 100000 in
-theorem Neo4jPropertyGraph_get_all_nodes_by_class_and_type_s0_value_free : ∀ op ∈ ops, op.key = "Neo4jPropertyGraph.get_all_nodes_by_class_and_type#0" → valueFree op.tpl = true := by decide +kernel
+theorem Neo4jPropertyGraph_get_all_nodes_by_class_and_type_s0_value_free : ∀ op ∈ ops, op.key = t!"Neo4jPropertyGraph.get_all_nodes_by_class_and_type#0" → valueFree op.tpl = true := by decide +kernel
 
 set_option maxRecDepth 100000 in
-theorem Neo4jPropertyGraph_list_all_node_ids_s0_value_free : ∀ op ∈ ops, op.key = "Neo4jPropertyGraph.list_all_node_ids#0" → valueFree op.tpl = true := by decide +kernel
+theorem Neo4jPropertyGraph_list_all_node_ids_s0_value_free : ∀ op ∈ ops, op.key = t!"Neo4jPropertyGraph.list_all_node_ids#0" → valueFree op.tpl = true := by decide +kernel
 
 set_option maxRecDepth 100000 in
-theorem Neo4jPropertyGraph_get_node_properties_s0_value_free : ∀ op ∈ ops, op.key = "Neo4jPropertyGraph.get_node_properties#0" → valueFree op.tpl = true := by decide +kernel
+theorem Neo4jPropertyGraph_get_node_properties_s0_value_free : ∀ op ∈ ops, op.key = t!"Neo4jPropertyGraph.get_node_properties#0" → valueFree op.tpl = true := by decide +kernel
 
 set_option maxRecDepth 100000 in
-theorem Neo4jPropertyGraph_get_link_properties_s0_value_free : ∀ op ∈ ops, op.key = "Neo4jPropertyGraph.get_link_properties#0" → valueFree op.tpl = true := by decide +kernel
+theorem Neo4jPropertyGraph_get_link_properties_s0_value_free : ∀ op ∈ ops, op.key = t!"Neo4jPropertyGraph.get_link_properties#0" → valueFree op.tpl = true := by decide +kernel
 
 set_option maxRecDepth 100000 in
-theorem Neo4jPropertyGraph_update_node_property_s0_value_free : ∀ op ∈ ops, op.key = "Neo4jPropertyGraph.update_node_property#0" → valueFree op.tpl = true := by decide +kernel
+theorem Neo4jPropertyGraph_update_node_property_s0_value_free : ∀ op ∈ ops, op.key = t!"Neo4jPropertyGraph.update_node_property#0" → valueFree op.tpl = true := by decide +kernel
 
 set_option maxRecDepth 100000 in
-theorem Neo4jPropertyGraph_unset_node_property_s0_value_free : ∀ op ∈ ops, op.key = "Neo4jPropertyGraph.unset_node_property#0" → valueFree op.tpl = true := by decide +kernel
+theorem Neo4jPropertyGraph_unset_node_property_s0_value_free : ∀ op ∈ ops, op.key = t!"Neo4jPropertyGraph.unset_node_property#0" → valueFree op.tpl = true := by decide +kernel
 
 set_option maxRecDepth 100000 in
-theorem Neo4jPropertyGraph_update_nodes_property_s0_value_free : ∀ op ∈ ops, op.key = "Neo4jPropertyGraph.update_nodes_property#0" → valueFree op.tpl = true := by decide +kernel
+theorem Neo4jPropertyGraph_update_nodes_property_s0_value_free : ∀ op ∈ ops, op.key = t!"Neo4jPropertyGraph.update_nodes_property#0" → valueFree op.tpl = true := by decide +kernel
 
 set_option maxRecDepth 100000 in
-theorem Neo4jPropertyGraph_update_link_property_s0_value_free : ∀ op ∈ ops, op.key = "Neo4jPropertyGraph.update_link_property#0" → valueFree op.tpl = true := by decide +kernel
+theorem Neo4jPropertyGraph_update_link_property_s0_value_free : ∀ op ∈ ops, op.key = t!"Neo4jPropertyGraph.update_link_property#0" → valueFree op.tpl = true := by decide +kernel
 
 set_option maxRecDepth 100000 in
-theorem Neo4jPropertyGraph_unset_link_property_s0_value_free : ∀ op ∈ ops, op.key = "Neo4jPropertyGraph.unset_link_property#0" → valueFree op.tpl = true := by decide +kernel
+theorem Neo4jPropertyGraph_unset_link_property_s0_value_free : ∀ op ∈ ops, op.key = t!"Neo4jPropertyGraph.unset_link_property#0" → valueFree op.tpl = true := by decide +kernel
 
 set_option maxRecDepth 100000 in
-theorem Neo4jPropertyGraph_graph_exists_s0_value_free : ∀ op ∈ ops, op.key = "Neo4jPropertyGraph.graph_exists#0" → valueFree op.tpl = true := by decide +kernel
+theorem Neo4jPropertyGraph_graph_exists_s0_value_free : ∀ op ∈ ops, op.key = t!"Neo4jPropertyGraph.graph_exists#0" → valueFree op.tpl = true := by decide +kernel
 
 set_option maxRecDepth 100000 in
-theorem Neo4jPropertyGraph_get_nodes_on_shortest_path_s0_value_free : ∀ op ∈ ops, op.key = "Neo4jPropertyGraph.get_nodes_on_shortest_path#0" → valueFree op.tpl = true := by decide +kernel
+theorem Neo4jPropertyGraph_get_nodes_on_shortest_path_s0_value_free : ∀ op ∈ ops, op.key = t!"Neo4jPropertyGraph.get_nodes_on_shortest_path#0" → valueFree op.tpl = true := by decide +kernel
 
 set_option maxRecDepth 100000 in
-theorem Neo4jPropertyGraph_get_nodes_on_path_with_hops_s0_value_free : ∀ op ∈ ops, op.key = "Neo4jPropertyGraph.get_nodes_on_path_with_hops#0" → valueFree op.tpl = true := by decide +kernel
+theorem Neo4jPropertyGraph_get_nodes_on_path_with_hops_s0_value_free : ∀ op ∈ ops, op.key = t!"Neo4jPropertyGraph.get_nodes_on_path_with_hops#0" → valueFree op.tpl = true := by decide +kernel
 
 set_option maxRecDepth 100000 in
-theorem Neo4jPropertyGraph_get_first_neighbor_s0_value_free : ∀ op ∈ ops, op.key = "Neo4jPropertyGraph.get_first_neighbor#0" → valueFree op.tpl = true := by decide +kernel
+theorem Neo4jPropertyGraph_get_first_neighbor_s0_value_free : ∀ op ∈ ops, op.key = t!"Neo4jPropertyGraph.get_first_neighbor#0" → valueFree op.tpl = true := by decide +kernel
 
 set_option maxRecDepth 100000 in
-theorem Neo4jPropertyGraph_get_first_and_second_neighbor_s0_value_free : ∀ op ∈ ops, op.key = "Neo4jPropertyGraph.get_first_and_second_neighbor#0" → valueFree op.tpl = true := by decide +kernel
+theorem Neo4jPropertyGraph_get_first_and_second_neighbor_s0_value_free : ∀ op ∈ ops, op.key = t!"Neo4jPropertyGraph.get_first_and_second_neighbor#0" → valueFree op.tpl = true := by decide +kernel
 
 set_option maxRecDepth 100000 in
-theorem Neo4jPropertyGraph_delete_node_s0_value_free : ∀ op ∈ ops, op.key = "Neo4jPropertyGraph.delete_node#0" → valueFree op.tpl = true := by decide +kernel
+theorem Neo4jPropertyGraph_delete_node_s0_value_free : ∀ op ∈ ops, op.key = t!"Neo4jPropertyGraph.delete_node#0" → valueFree op.tpl = true := by decide +kernel
 
 set_option maxRecDepth 100000 in
-theorem Neo4jPropertyGraph_node_exists_s0_value_free : ∀ op ∈ ops, op.key = "Neo4jPropertyGraph.node_exists#0" → valueFree op.tpl = true := by decide +kernel
+theorem Neo4jPropertyGraph_node_exists_s0_value_free : ∀ op ∈ ops, op.key = t!"Neo4jPropertyGraph.node_exists#0" → valueFree op.tpl = true := by decide +kernel
 
 set_option maxRecDepth 100000 in
-theorem Neo4jPropertyGraph_find_matching_nodes_s0_value_free : ∀ op ∈ ops, op.key = "Neo4jPropertyGraph.find_matching_nodes#0" → valueFree op.tpl = true := by decide +kernel
+theorem Neo4jPropertyGraph_find_matching_nodes_s0_value_free : ∀ op ∈ ops, op.key = t!"Neo4jPropertyGraph.find_matching_nodes#0" → valueFree op.tpl = true := by decide +kernel
 
 set_option maxRecDepth 100000 in
-theorem Neo4jPropertyGraph_merge_nodes_s0_value_free : ∀ op ∈ ops, op.key = "Neo4jPropertyGraph.merge_nodes#0" → valueFree op.tpl = true := by decide +kernel
+theorem Neo4jPropertyGraph_merge_nodes_s0_value_free : ∀ op ∈ ops, op.key = t!"Neo4jPropertyGraph.merge_nodes#0" → valueFree op.tpl = true := by decide +kernel
 
 set_option maxRecDepth 100000 in
-theorem Neo4jPropertyGraph_get_stitch_nodes_s0_value_free : ∀ op ∈ ops, op.key = "Neo4jPropertyGraph.get_stitch_nodes#0" → valueFree op.tpl = true := by decide +kernel
+theorem Neo4jPropertyGraph_get_stitch_nodes_s0_value_free : ∀ op ∈ ops, op.key = t!"Neo4jPropertyGraph.get_stitch_nodes#0" → valueFree op.tpl = true := by decide +kernel
 
 set_option maxRecDepth 100000 in
-theorem Neo4jPropertyGraph_check_node_unique_s0_value_free : ∀ op ∈ ops, op.key = "Neo4jPropertyGraph.check_node_unique#0" → valueFree op.tpl = true := by decide +kernel
+theorem Neo4jPropertyGraph_check_node_unique_s0_value_free : ∀ op ∈ ops, op.key = t!"Neo4jPropertyGraph.check_node_unique#0" → valueFree op.tpl = true := by decide +kernel
 
 set_option maxRecDepth 100000 in
-theorem Neo4jPropertyGraph_get_graph_diff_s0_value_free : ∀ op ∈ ops, op.key = "Neo4jPropertyGraph.get_graph_diff#0" → valueFree op.tpl = true := by decide +kernel
+theorem Neo4jPropertyGraph_get_graph_diff_s0_value_free : ∀ op ∈ ops, op.key = t!"Neo4jPropertyGraph.get_graph_diff#0" → valueFree op.tpl = true := by decide +kernel
 
 set_option maxRecDepth 100000 in
-theorem Neo4jPropertyGraph_get_graph_property_diff_s0_value_free : ∀ op ∈ ops, op.key = "Neo4jPropertyGraph.get_graph_property_diff#0" → valueFree op.tpl = true := by decide +kernel
+theorem Neo4jPropertyGraph_get_graph_property_diff_s0_value_free : ∀ op ∈ ops, op.key = t!"Neo4jPropertyGraph.get_graph_property_diff#0" → valueFree op.tpl = true := by decide +kernel
 
 set_option maxRecDepth 100000 in
-theorem Neo4jGraphImporter__add_indexes_s0_value_free : ∀ op ∈ ops, op.key = "Neo4jGraphImporter._add_indexes#0" → valueFree op.tpl = true := by decide +kernel
+theorem Neo4jGraphImporter__add_indexes_s0_value_free : ∀ op ∈ ops, op.key = t!"Neo4jGraphImporter._add_indexes#0" → valueFree op.tpl = true := by decide +kernel
 
 set_option maxRecDepth 100000 in
-theorem Neo4jGraphImporter__import_graph_s0_value_free : ∀ op ∈ ops, op.key = "Neo4jGraphImporter._import_graph#0" → valueFree op.tpl = true := by decide +kernel
+theorem Neo4jGraphImporter__import_graph_s0_value_free : ∀ op ∈ ops, op.key = t!"Neo4jGraphImporter._import_graph#0" → valueFree op.tpl = true := by decide +kernel
 
 set_option maxRecDepth 100000 in
-theorem Neo4jGraphImporter__import_graph_s1_value_free : ∀ op ∈ ops, op.key = "Neo4jGraphImporter._import_graph#1" → valueFree op.tpl = true := by decide +kernel
+theorem Neo4jGraphImporter__import_graph_s1_value_free : ∀ op ∈ ops, op.key = t!"Neo4jGraphImporter._import_graph#1" → valueFree op.tpl = true := by decide +kernel
 
 set_option maxRecDepth 100000 in
-theorem Neo4jGraphImporter_delete_all_graphs_s0_value_free : ∀ op ∈ ops, op.key = "Neo4jGraphImporter.delete_all_graphs#0" → valueFree op.tpl = true := by decide +kernel
+theorem Neo4jGraphImporter_delete_all_graphs_s0_value_free : ∀ op ∈ ops, op.key = t!"Neo4jGraphImporter.delete_all_graphs#0" → valueFree op.tpl = true := by decide +kernel
 
 set_option maxRecDepth 100000 in
-theorem Neo4jGraphImporter_delete_graph_s0_value_free : ∀ op ∈ ops, op.key = "Neo4jGraphImporter.delete_graph#0" → valueFree op.tpl = true := by decide +kernel
+theorem Neo4jGraphImporter_delete_graph_s0_value_free : ∀ op ∈ ops, op.key = t!"Neo4jGraphImporter.delete_graph#0" → valueFree op.tpl = true := by decide +kernel
 
 set_option maxRecDepth 100000 in
-theorem Neo4jCBMGraph_get_intersite_links_s0_value_free : ∀ op ∈ ops, op.key = "Neo4jCBMGraph.get_intersite_links#0" → valueFree op.tpl = true := by decide +kernel
+theorem Neo4jCBMGraph_get_intersite_links_s0_value_free : ∀ op ∈ ops, op.key = t!"Neo4jCBMGraph.get_intersite_links#0" → valueFree op.tpl = true := by decide +kernel
 
 set_option maxRecDepth 100000 in
-theorem Neo4jCBMGraph_get_sites_s0_value_free : ∀ op ∈ ops, op.key = "Neo4jCBMGraph.get_sites#0" → valueFree op.tpl = true := by decide +kernel
+theorem Neo4jCBMGraph_get_sites_s0_value_free : ∀ op ∈ ops, op.key = t!"Neo4jCBMGraph.get_sites#0" → valueFree op.tpl = true := by decide +kernel
 
 set_option maxRecDepth 100000 in
-theorem Neo4jCBMGraph_get_disconnected_sites_s0_value_free : ∀ op ∈ ops, op.key = "Neo4jCBMGraph.get_disconnected_sites#0" → valueFree op.tpl = true := by decide +kernel
+theorem Neo4jCBMGraph_get_disconnected_sites_s0_value_free : ∀ op ∈ ops, op.key = t!"Neo4jCBMGraph.get_disconnected_sites#0" → valueFree op.tpl = true := by decide +kernel
 
 set_option maxRecDepth 100000 in
-theorem Neo4jCBMGraph_get_connected_sites_s0_value_free : ∀ op ∈ ops, op.key = "Neo4jCBMGraph.get_connected_sites#0" → valueFree op.tpl = true := by decide +kernel
+theorem Neo4jCBMGraph_get_connected_sites_s0_value_free : ∀ op ∈ ops, op.key = t!"Neo4jCBMGraph.get_connected_sites#0" → valueFree op.tpl = true := by decide +kernel
 
 set_option maxRecDepth 100000 in
-theorem Neo4jCBMGraph_get_facility_ports_s0_value_free : ∀ op ∈ ops, op.key = "Neo4jCBMGraph.get_facility_ports#0" → valueFree op.tpl = true := by decide +kernel
+theorem Neo4jCBMGraph_get_facility_ports_s0_value_free : ∀ op ∈ ops, op.key = t!"Neo4jCBMGraph.get_facility_ports#0" → valueFree op.tpl = true := by decide +kernel
 
 set_option maxRecDepth 100000 in
-theorem Neo4jASM_check_node_name_s0_value_free : ∀ op ∈ ops, op.key = "Neo4jASM.check_node_name#0" → valueFree op.tpl = true := by decide +kernel
+theorem Neo4jASM_check_node_name_s0_value_free : ∀ op ∈ ops, op.key = t!"Neo4jASM.check_node_name#0" → valueFree op.tpl = true := by decide +kernel
 
 set_option maxRecDepth 100000 in
-theorem Neo4jASM_find_node_by_name_s0_value_free : ∀ op ∈ ops, op.key = "Neo4jASM.find_node_by_name#0" → valueFree op.tpl = true := by decide +kernel
+theorem Neo4jASM_find_node_by_name_s0_value_free : ∀ op ∈ ops, op.key = t!"Neo4jASM.find_node_by_name#0" → valueFree op.tpl = true := by decide +kernel
 
 set_option maxRecDepth 100000 in
 /-- `Neo4jPropertyGraph.update_node_properties#0` hands the driver a text that changes with a stored value -/
 theorem Neo4jPropertyGraph_update_node_properties_s0_value_dependent_counterexample :
-    ∃ op ∈ ops, op.key = "Neo4jPropertyGraph.update_node_properties#0" ∧ ∃ e1 e2 : Env, e1.erase = e2.erase ∧ render e1 op.tpl ≠ render e2 op.tpl :=
+    ∃ op ∈ ops, op.key = t!"Neo4jPropertyGraph.update_node_properties#0" ∧ ∃ e1 e2 : Env, e1.erase = e2.erase ∧ render e1 op.tpl ≠ render e2 op.tpl :=
   ⟨op_Neo4jPropertyGraph_update_node_properties_s0_v0, by simp [ops], by decide +kernel, canonEnv, evilEnv, by decide +kernel, by decide +kernel⟩
 
 set_option maxRecDepth 100000 in
 /-- `Neo4jPropertyGraph.update_link_properties#0` hands the driver a text that changes with a stored value -/
 theorem Neo4jPropertyGraph_update_link_properties_s0_value_dependent_counterexample :
-    ∃ op ∈ ops, op.key = "Neo4jPropertyGraph.update_link_properties#0" ∧ ∃ e1 e2 : Env, e1.erase = e2.erase ∧ render e1 op.tpl ≠ render e2 op.tpl :=
+    ∃ op ∈ ops, op.key = t!"Neo4jPropertyGraph.update_link_properties#0" ∧ ∃ e1 e2 : Env, e1.erase = e2.erase ∧ render e1 op.tpl ≠ render e2 op.tpl :=
   ⟨op_Neo4jPropertyGraph_update_link_properties_s0_v0, by simp [ops], by decide +kernel, canonEnv, evilEnv, by decide +kernel, by decide +kernel⟩
 
 set_option maxRecDepth 100000 in
 /-- `Neo4jPropertyGraph.add_node#0` hands the driver a text that changes with a stored value -/
 theorem Neo4jPropertyGraph_add_node_s0_value_dependent_counterexample :
-    ∃ op ∈ ops, op.key = "Neo4jPropertyGraph.add_node#0" ∧ ∃ e1 e2 : Env, e1.erase = e2.erase ∧ render e1 op.tpl ≠ render e2 op.tpl :=
+    ∃ op ∈ ops, op.key = t!"Neo4jPropertyGraph.add_node#0" ∧ ∃ e1 e2 : Env, e1.erase = e2.erase ∧ render e1 op.tpl ≠ render e2 op.tpl :=
   ⟨op_Neo4jPropertyGraph_add_node_s0_v0, by simp [ops], by decide +kernel, canonEnv, evilEnv, by decide +kernel, by decide +kernel⟩
 
 set_option maxRecDepth 100000 in
 /-- `Neo4jPropertyGraph.add_link#0` hands the driver a text that changes with a stored value -/
 theorem Neo4jPropertyGraph_add_link_s0_value_dependent_counterexample :
-    ∃ op ∈ ops, op.key = "Neo4jPropertyGraph.add_link#0" ∧ ∃ e1 e2 : Env, e1.erase = e2.erase ∧ render e1 op.tpl ≠ render e2 op.tpl :=
+    ∃ op ∈ ops, op.key = t!"Neo4jPropertyGraph.add_link#0" ∧ ∃ e1 e2 : Env, e1.erase = e2.erase ∧ render e1 op.tpl ≠ render e2 op.tpl :=
   ⟨op_Neo4jPropertyGraph_add_link_s0_v0, by simp [ops], by decide +kernel, canonEnv, evilEnv, by decide +kernel, by decide +kernel⟩
 
 set_option maxRecDepth 100000 in
 /-- `Neo4jPropertyGraph.serialize_graph#0` hands the driver a text that changes with a stored value -/
 theorem Neo4jPropertyGraph_serialize_graph_s0_value_dependent_counterexample :
-    ∃ op ∈ ops, op.key = "Neo4jPropertyGraph.serialize_graph#0" ∧ ∃ e1 e2 : Env, e1.erase = e2.erase ∧ render e1 op.tpl ≠ render e2 op.tpl :=
+    ∃ op ∈ ops, op.key = t!"Neo4jPropertyGraph.serialize_graph#0" ∧ ∃ e1 e2 : Env, e1.erase = e2.erase ∧ render e1 op.tpl ≠ render e2 op.tpl :=
   ⟨op_Neo4jPropertyGraph_serialize_graph_s0_v0, by simp [ops], by decide +kernel, canonEnv, evilEnv, by decide +kernel, by decide +kernel⟩
 
 set_option maxRecDepth 100000 in
 /-- `Neo4jPropertyGraph.serialize_graph#1` hands the driver a text that changes with a stored value -/
 theorem Neo4jPropertyGraph_serialize_graph_s1_value_dependent_counterexample :
-    ∃ op ∈ ops, op.key = "Neo4jPropertyGraph.serialize_graph#1" ∧ ∃ e1 e2 : Env, e1.erase = e2.erase ∧ render e1 op.tpl ≠ render e2 op.tpl :=
+    ∃ op ∈ ops, op.key = t!"Neo4jPropertyGraph.serialize_graph#1" ∧ ∃ e1 e2 : Env, e1.erase = e2.erase ∧ render e1 op.tpl ≠ render e2 op.tpl :=
   ⟨op_Neo4jPropertyGraph_serialize_graph_s1_v0, by simp [ops], by decide +kernel, canonEnv, evilEnv, by decide +kernel, by decide +kernel⟩
 
 set_option maxRecDepth 100000 in
 /-- `Neo4jCBMGraph.get_matching_nodes_with_components#0` hands the driver a text that changes with a stored value -/
 theorem Neo4jCBMGraph_get_matching_nodes_with_components_s0_value_dependent_counterexample :
-    ∃ op ∈ ops, op.key = "Neo4jCBMGraph.get_matching_nodes_with_components#0" ∧ ∃ e1 e2 : Env, e1.erase = e2.erase ∧ render e1 op.tpl ≠ render e2 op.tpl :=
+    ∃ op ∈ ops, op.key = t!"Neo4jCBMGraph.get_matching_nodes_with_components#0" ∧ ∃ e1 e2 : Env, e1.erase = e2.erase ∧ render e1 op.tpl ≠ render e2 op.tpl :=
   ⟨op_Neo4jCBMGraph_get_matching_nodes_with_components_s0_v1, by simp [ops], by decide +kernel, canonEnv, evilEnv, by decide +kernel, by decide +kernel⟩
+
+/-- a template leaks nothing exactly when it is value-free -/
+theorem leaks_nil_of_value_free_atom (a : Atom) : a.vf = true → a.leaks = [] := by
+  cases a <;> simp [Atom.vf, Atom.leaks]
+
+set_option maxRecDepth 100000 in
+/-- Exactly which stored values each value-dependent call site writes into the statement text.  The known findings are keyed by
+call site, so this table is what keeps a *further* value leaking into an already listed statement from going unnoticed:
+`node_id`, `node_a`, `node_b`, `graphId`s … of these sites stay parameters. -/
+theorem leaked_values_exact :
+    (ops.filter (fun op => valueDependentKeys.contains op.key)).map (fun op => (op.key, op.variant, leaks op.tpl)) =
+    [ (t!"Neo4jPropertyGraph.update_node_properties#0", 0, [t!"row.v"]),
+      (t!"Neo4jPropertyGraph.update_link_properties#0", 0, [t!"row.v"]),
+      (t!"Neo4jPropertyGraph.serialize_graph#0", 0, [t!"graph_id"]),
+      (t!"Neo4jPropertyGraph.serialize_graph#1", 0, [t!"graph_id"]),
+      (t!"Neo4jPropertyGraph.add_node#0", 0, [t!"graph_id", t!"node_id", t!"row.v"]),
+      (t!"Neo4jPropertyGraph.add_link#0", 0, [t!"row.v"]),
+      (t!"Neo4jCBMGraph.get_matching_nodes_with_components#0", 0, [t!"row.v"]),
+      (t!"Neo4jCBMGraph.get_matching_nodes_with_components#0", 1, [t!"row.v", t!"row.resource_model"]) ] := by decide +kernel
+
+/-- GUARDED FORM of the full statement, valid for EVERY template (also those of the value-dependent call sites), for all
+values: the text depends on no stored value other than the ones the template leaks.  Together with `leaked_values_exact`:
+`update_node_properties` / `update_link_properties` / `add_link` / `get_matching_nodes_with_components` depend only on the
+values of the property map (and component models), `serialize_graph` only on the graph id, `add_node` on graph id, node id
+and property values; every other argument of these operations reaches the driver as a parameter. -/
+theorem data_independent_up_to_leaks_partial (t : List Piece) (e1 e2 : Env)
+    (hs : e1.eraseExcept (leaks t) = e2.eraseExcept (leaks t)) : render e1 t = render e2 t := by
+  have ht : ∀ x ∈ leaks t, (leaks t).contains x = true := fun x hx => List.contains_iff_mem.mpr hx
+  rw [render_eraseExcept ht e1, render_eraseExcept ht e2, hs]
+
+/-- non-vacuity: for `update_node_properties` two environments with different node ids and graph ids but the same property
+values are identified by the hypothesis -/
+example :
+    let L := leaks op_Neo4jPropertyGraph_update_node_properties_s0_v0.tpl
+    let e1 : Env := ⟨[], [(t!"node_id", t!"n1"), (t!"graph_id", t!"g")], [(t!"props", [⟨[(t!"k", t!"Name")], [(t!"v", t!"it's")]⟩])]⟩
+    let e2 : Env := ⟨[], [(t!"node_id", t!"x' //"), (t!"graph_id", t!"\"")], [(t!"props", [⟨[(t!"k", t!"Name")], [(t!"v", t!"it's")]⟩])]⟩
+    e1.eraseExcept L = e2.eraseExcept L ∧ e1 ≠ e2 := by decide +kernel
 
 /-! ### well-formedness -/
 
@@ -274,9 +314,9 @@ set_option maxRecDepth 1000000 in
 /-- what the interpolation in `update_node_properties` permits: a stored value `x'} DETACH DELETE s //` yields a
 statement that still passes the lint and is a different statement (it deletes the node) -/
 theorem injection_rewrites_statement :
-    let e : Env := ⟨[], [], [("props", [⟨[("k", "Name".toList)], [("v", "x'} DETACH DELETE s //".toList)]⟩])]⟩
+    let e : Env := ⟨[], [], [(t!"props", [⟨[(t!"k", t!"Name")], [(t!"v", t!"x'} DETACH DELETE s //")]⟩])]⟩
     render e op_Neo4jPropertyGraph_update_node_properties_s0_v0.tpl =
-      "MATCH (s:GraphNode {GraphID: $graphId, NodeID: $nodeId}) SET s+= { Name: 'x'} DETACH DELETE s //' } RETURN properties(s)".toList
+      t!"MATCH (s:GraphNode {GraphID: $graphId, NodeID: $nodeId}) SET s+= { Name: 'x'} DETACH DELETE s //' } RETURN properties(s)"
     ∧ checkStmt (render e op_Neo4jPropertyGraph_update_node_properties_s0_v0.tpl)
         op_Neo4jPropertyGraph_update_node_properties_s0_v0.supplied = true := by decide +kernel
 
